@@ -74,7 +74,7 @@ $OMEGA 0.02
 $SIGMA 0.01
 $ESTIMATION METHOD=1 INTERACTION
 """
-ALL_ACTS = ["S:IVORAL", "D:FIXVAR1", "X:ADDIIV", "S:FO", "S:PER", "S:TR", "S:LAG", "S:ZOE", "S:MM", "X:COVLIN", "X:COVCAT", "X:COVPW", "X:IOV", "X:BOXCOX",
+ALL_ACTS = ["S:IVORAL", "D:FIXVAR1", "X:REDEF", "X:ADDIIV", "S:FO", "S:PER", "S:TR", "S:LAG", "S:ZOE", "S:MM", "X:COVLIN", "X:COVCAT", "X:COVPW", "X:IOV", "X:BOXCOX",
             "X:COMB", "X:IIVRUV", "X:POWER", "X:TV", "D:FIXTH", "D:ZEROOM", "P:MU", "P:DECL", "P:CLEAN", "P:SIMP", "P:GREEK",
             "P:RENAME", "P:SOLVE", "P:GENERIC", "P:NONMEM", "P:UNLOAD", "P:LOAD", "P:UNUSED", "P:JOINT", "P:SPLIT", "P:FIXED",
             "P:NONRANDOM", "O:OBS", "O:IPRED", "O:PRED", "O:ETAGRAD", "O:EPSGRAD", "O:EVAL"]
@@ -266,6 +266,25 @@ COV = {"pheno": {"X:COVLIN": ("CL", "APGR", "lin", False), "X:COVCAT": ("CL", "F
 OCC = {"pheno": "FA1", "mox2": "VISI"}
 
 
+def redefine_interleaved(m):
+    """X:REDEF: after the first definition of T (the first assignment that reads a theta) insert
+    R = th_a; T = T*R; R = R + th_b; T = T + 1 - T is assigned three times, its middle definition reads R, and R is
+    reassigned before T's last definition"""
+    import pharmpy.modeling as pm
+    from pharmpy.basic import Expr
+    from pharmpy.model import Assignment, Statements
+
+    th = [p.name for p in pm.get_thetas(m)]
+    sts = list(m.statements)
+    k = next(i for i, s in enumerate(sts) if isinstance(s, Assignment) and any(str(x) in th for x in s.expression.free_symbols))
+    t = sts[k].symbol
+    r = Expr.symbol("RDS")
+    a, b = Expr.symbol(th[0]), Expr.symbol(th[1] if len(th) > 1 else th[0])
+    new = [Assignment.create(r, a), Assignment.create(t, t * r), Assignment.create(r, r + b), Assignment.create(t, t + 1)]
+    m2 = m.replace(statements=Statements(sts[: k + 1] + new + sts[k + 1:]))
+    return m2.update_source()
+
+
 def apply_other(name, tok, m):
     import pharmpy.modeling as pm
 
@@ -291,6 +310,8 @@ def apply_other(name, tok, m):
         return pm.set_michaelis_menten_elimination(m)
     if tok == "X:ADDIIV":
         return pm.add_iiv(m, "KA", "exp")
+    if tok == "X:REDEF":
+        return redefine_interleaved(m)
     if tok in ("X:COVLIN", "X:COVCAT", "X:COVPW"):
         p, c, eff, nested = COV[name][tok]
         return pm.add_covariate_effect(m, p, c, eff, allow_nested=nested)
